@@ -84,6 +84,44 @@ func (in *Input) keep(v ...any) { in.kept = append(in.kept, v...) }
 // ResetKept forgets the retained results.
 func (in *Input) ResetKept() { in.kept = nil }
 
+// ScribbleKept overwrites every retained live result the way a caller that owns it may: every
+// element of returned byte, int and float slices and of the coordinate storage of returned
+// geometries, including spare capacity.
+func (in *Input) ScribbleKept() {
+	fl := func(f []float64) {
+		f = f[:cap(f)]
+		for i := range f {
+			f[i] = -31337.5
+		}
+	}
+	for _, v := range in.kept {
+		switch t := v.(type) {
+		case []byte:
+			t = t[:cap(t)]
+			for i := range t {
+				t[i] = 0xAA
+			}
+		case []int:
+			t = t[:cap(t)]
+			for i := range t {
+				t[i] = -7
+			}
+		case []float64:
+			fl(t)
+		case geom.Coord:
+			fl(t)
+		case geom.T:
+			if t == nil || isNil(t) {
+				continue
+			}
+			if _, ok := t.(*geom.GeometryCollection); ok {
+				continue
+			}
+			fl(t.FlatCoords())
+		}
+	}
+}
+
 // Rerender renders every retained live result again.
 func (in *Input) Rerender() string { return fp(in.kept...) }
 
@@ -263,6 +301,12 @@ func initBuilders() {
 		{{0, 0}, {10, 0}, {5, 0}, {5, 7.5}},                                                                                        // T-junction
 		{{0, 0}, {4, 4}, {2, 2}, {6, 6}},                                                                                          // collinear overlap
 		{{1.5, 2.5, 3.5}, {4.25, 5.125, 6.0625}, {7.1, 8.2, 9.3}, {0.7, 0.8, math.NaN()}},                                         // 3D
+		{{4, 4}, {103, 228}, {4.000000000000001, 3.999999999999999}, {102.99999999999999, 227.99999999999997}},                   // nearly coincident, crossing: the homogeneous-coordinate intersection fails, central-endpoint fallback
+		{{1e120, 2e120}, {9e120, 7e120}, {1e120, 7e120}, {9e120, 1e120}},                                                           // proper crossing whose triple products overflow
+		{{0, 0}, {10, 10}, {10, 10}, {20, 3}},                                                                                      // touching at an end point
+		{{0, 0}, {10, 0}, {3, 0}, {20, 0}},                                                                                         // collinear, partial overlap
+		{{0, 0, 0}, {0, 0, 0}, {1, 1, 1}, {2, 2, 2}},                                                                               // zero-length first segment (3D shortcuts)
+		{{0, 0, 0}, {4, 0, 0}, {0, 1, 0}, {4, 1, 0}},                                                                               // parallel in 3D
 	}
 	for i, tp := range tuples {
 		tp := tp
@@ -679,7 +723,23 @@ func Registry() []Fn {
 		{"ewkb.Unmarshal+hex.Decode", func(in *Input) bool { return in.EWKB != nil }, func(in *Input) string {
 			g, err := ewkb.Unmarshal(in.EWKB)
 			g2, err2 := ewkbhex.Decode(in.Hex)
-			return in.fp(g, err, g2, err2)
+			g3, err3 := ewkbhex.Decode(strings.ToUpper(in.Hex))
+			return in.fp(g, err, g2, err2, g3, err3)
+		}},
+		{"wkt.Unmarshal(spellings)", func(in *Input) bool { return in.WKT != "" }, func(in *Input) string {
+			// non-canonical spellings: a memo keyed on the spelling is only written for these
+			lower := strings.ToLower(in.WKT)
+			mixed := []byte(lower)
+			for i := 0; i < len(mixed); i += 2 {
+				if mixed[i] >= 'a' && mixed[i] <= 'z' {
+					mixed[i] -= 32
+				}
+			}
+			spaced := strings.ReplaceAll(strings.ReplaceAll(in.WKT, "(", " (\n\t"), ",", " ,\r\n ")
+			g1, e1 := wkt.Unmarshal(lower)
+			g2, e2 := wkt.Unmarshal(string(mixed))
+			g3, e3 := wkt.Unmarshal(spaced)
+			return in.fp(g1, e1, g2, e2, g3, e3)
 		}},
 		{"wkt.Unmarshal", func(in *Input) bool { return in.WKT != "" }, func(in *Input) string {
 			g, err := wkt.Unmarshal(in.WKT)
@@ -746,4 +806,77 @@ func nonEmptyDeep(in *Input) bool {
 		}
 	}
 	return in.Model.NumOrdinates() > 0
+}
+
+// BulkTuples is the exhaustive low-level family of the purity check: every 4-tuple of points of
+// the 3x3 integer grid (with a third ordinate derived from the position), the same scaled to
+// 1e120 (overflowing products) for every 16th tuple, and every perturbation by -1/0/+1 ulp of
+// the four ordinates of the second segment of a nearly coincident crossing pair.
+func BulkTuples() [][][]float64 {
+	var out [][][]float64
+	var grid [][]float64
+	for x := 0; x < 3; x++ {
+		for y := 0; y < 3; y++ {
+			grid = append(grid, []float64{float64(x), float64(y), float64((x*2 + y) % 3)})
+		}
+	}
+	k := 0
+	for _, a := range grid {
+		for _, b := range grid {
+			for _, c := range grid {
+				for _, d := range grid {
+					out = append(out, [][]float64{a, b, c, d})
+					if k%16 == 0 {
+						sc := func(p []float64) []float64 { return []float64{p[0] * 1e120, p[1] * 1e120, p[2]} }
+						out = append(out, [][]float64{sc(a), sc(b), sc(c), sc(d)})
+					}
+					k++
+				}
+			}
+		}
+	}
+	nx := func(v float64, d int) float64 {
+		for ; d > 0; d-- {
+			v = math.Nextafter(v, math.Inf(1))
+		}
+		for ; d < 0; d++ {
+			v = math.Nextafter(v, math.Inf(-1))
+		}
+		return v
+	}
+	for d0 := -1; d0 <= 1; d0++ {
+		for d1 := -1; d1 <= 1; d1++ {
+			for d2 := -1; d2 <= 1; d2++ {
+				for d3 := -1; d3 <= 1; d3++ {
+					out = append(out, [][]float64{{4, 4, 0}, {103, 228, 1}, {nx(4, d0), nx(4, d1), 2}, {nx(103, d2), nx(228, d3), 3}})
+				}
+			}
+		}
+	}
+	return out
+}
+
+// TupleInput builds an input from one coordinate tuple (fresh storage with spare capacity).
+func TupleInput(name string, tp [][]float64) *Input {
+	in := &Input{Name: name, Layout: geom.XY}
+	for _, c := range tp {
+		in.Coords = append(in.Coords, spare(c))
+	}
+	var flat []float64
+	for _, c := range tp {
+		flat = append(flat, c[0], c[1])
+	}
+	flat = append(flat, tp[0][0], tp[0][1])
+	in.Flat = spare(flat)
+	return in
+}
+
+// CoordSnapshot is the cheap part of Snapshot for tuple inputs.
+func (in *Input) CoordSnapshot() string {
+	var sb strings.Builder
+	for _, c := range in.Coords {
+		fmt.Fprintf(&sb, "c%d/%d=%s|", len(c), cap(c), bitsStr(c[:cap(c)]))
+	}
+	fmt.Fprintf(&sb, "flat%d/%d=%s", len(in.Flat), cap(in.Flat), bitsStr(in.Flat[:cap(in.Flat)]))
+	return sb.String()
 }
